@@ -2250,6 +2250,10 @@ func (m *repoManager) findMatch(kvv kvVersions, v dvid.VersionID) (*storage.KeyV
 // ----- Repo-level data instance functions -----
 
 func (m *repoManager) newData(uuid dvid.UUID, t TypeService, name dvid.InstanceName, c dvid.Config) (DataService, error) {
+	// An instance is addressed as one element of a URL path: a name no URL can spell is refused.
+	if name == "" || strings.ContainsAny(string(name), "/") {
+		return nil, fmt.Errorf("invalid data instance name %q: it must not be empty or contain '/'", name)
+	}
 	id, err := m.newInstanceID()
 	if err != nil {
 		return nil, err
